@@ -69,10 +69,14 @@ const IDS: [&str; 4] = ["app.yaml", "db.properties", "x", "flags.json"];
 const NS: [&str; 4] = ["ns-a", "ns-b", "team-c", "zone-d"];
 
 pub const KNOWN_F10: &str = "C08/installed-snapshot-not-applied-to-live-state";
+pub const KNOWN_FUZZY: &str = "C08/divergence-needs-compaction-concurrent-with-apply";
 pub const KNOWN_MEMBERS: &str = "C08/membership-of-installed-snapshot-not-adopted-until-restart";
 
-fn apply_writes(c: &Cluster, node: usize, ws: &[W], acked: &mut u64) -> Result<(), String> {
+fn apply_writes(c: &Cluster, node: usize, ws: &[W], acked: &mut u64, pace_ms: u64) -> Result<(), String> {
     for w in ws {
+        if pace_ms > 0 {
+            std::thread::sleep(Duration::from_millis(pace_ms));
+        }
         let ok = match w {
             W::Publish { tenant, group, id, variant } => c.publish(
                 node,
@@ -159,7 +163,37 @@ fn installed_snapshot(c: &Cluster, node: usize) -> bool {
 
 static CASE_NO: AtomicU64 = AtomicU64::new(0);
 
+/// `Sequential` = the same schedule with compaction kept out of the way of applies: the follower never compacts
+/// its own log and the leader gets 150 ms after every write (its Raft-core-triggered compaction finishes
+/// before the next entry is applied). Used only to classify a failure (see KNOWN_FUZZY).
+#[derive(Clone, Copy, PartialEq, Debug)]
+pub enum Variant {
+    AsGenerated,
+    Sequential,
+}
+
 pub fn run_case(case: &Case, work: &Path, seed: u64) -> CaseReport {
+    let r = run_case_variant(case, work, seed, Variant::AsGenerated);
+    if let Verdict::Violation(m) = &r.verdict {
+        if std::env::var("RNV_C08_STRICT").is_err() && is_open("C08", KNOWN_FUZZY) && !m.contains("died") && !m.contains("does not") {
+            // a divergence that disappears when compaction never runs concurrently with applies is the recorded
+            // snapshot-not-atomic defect (root cause shared with C01); one that stays is reported
+            let r2 = run_case_variant(case, work, seed, Variant::Sequential);
+            if matches!(r2.verdict, Verdict::Pass | Verdict::Known(_)) {
+                let mut labels = r.labels.clone();
+                labels.push("known_divergence_needs_compaction_concurrent_with_apply".into());
+                return CaseReport {
+                    labels,
+                    nontrivial: r.nontrivial,
+                    verdict: Verdict::Known(KNOWN_FUZZY.into()),
+                };
+            }
+        }
+    }
+    r
+}
+
+pub fn run_case_variant(case: &Case, work: &Path, seed: u64, variant: Variant) -> CaseReport {
     let n = CASE_NO.fetch_add(1, Ordering::SeqCst);
     let mut env = BTreeMap::new();
     env.insert("RNACOS_RAFT_SNAPSHOT_LOG_SIZE".to_string(), case.threshold.to_string());
@@ -174,7 +208,12 @@ pub fn run_case(case: &Case, work: &Path, seed: u64) -> CaseReport {
             }
         }
     };
-    let r = run_case_inner(case, &mut c);
+    if variant == Variant::Sequential {
+        let mut m = BTreeMap::new();
+        m.insert("RNACOS_RAFT_SNAPSHOT_LOG_SIZE".to_string(), "1000000".to_string());
+        c.node_env.insert(1, m);
+    }
+    let r = run_case_inner(case, &mut c, variant);
     if std::env::var("RNV_KEEP_WORK").is_ok() && matches!(r.verdict, Verdict::Violation(_)) {
         c.shutdown();
         eprintln!("kept {}", c.work.display());
@@ -192,7 +231,8 @@ fn discard(m: String) -> CaseReport {
     }
 }
 
-fn run_case_inner(case: &Case, c: &mut Cluster) -> CaseReport {
+fn run_case_inner(case: &Case, c: &mut Cluster, variant: Variant) -> CaseReport {
+    let pace = if variant == Variant::Sequential { 150 } else { 0 };
     let mut labels: BTreeSet<String> = BTreeSet::new();
     let mut acked = 0u64;
     if let Err(e) = c.start_node(0).and_then(|_| c.wait_http(0, 30)) {
@@ -213,14 +253,14 @@ fn run_case_inner(case: &Case, c: &mut Cluster) -> CaseReport {
         labels.insert("follower_joins_late".into());
     }
     // from here on the system has accepted generated operations: no more discards
-    if let Err(e) = apply_writes(c, 0, &case.writes1, &mut acked) {
+    if let Err(e) = apply_writes(c, 0, &case.writes1, &mut acked, pace) {
         return CaseReport::violation(labels.into_iter().collect(), true, e);
     }
     if case.early && case.down_window {
         c.kill(1);
         labels.insert("follower_down_window".into());
     }
-    if let Err(e) = apply_writes(c, 0, &case.writes2, &mut acked) {
+    if let Err(e) = apply_writes(c, 0, &case.writes2, &mut acked, pace) {
         return CaseReport::violation(labels.into_iter().collect(), true, e);
     }
     // (re)start the follower
@@ -229,7 +269,7 @@ fn run_case_inner(case: &Case, c: &mut Cluster) -> CaseReport {
             return CaseReport::violation(labels.into_iter().collect(), true, format!("follower does not start: {}", e));
         }
     }
-    if let Err(e) = apply_writes(c, 0, &case.writes3, &mut acked) {
+    if let Err(e) = apply_writes(c, 0, &case.writes3, &mut acked, pace) {
         return CaseReport::violation(labels.into_iter().collect(), true, e);
     }
     // The join request is sent once, 500 ms after start; the leader answers it only when the new node has
@@ -361,7 +401,7 @@ pub fn main(ctx: &Ctx) -> i32 {
     let work = work_dir(ctx);
     let fin = || Finish {
         level: "exploration",
-        rule: "schedules on real processes: a leader with snapshot threshold 10/20/35, generated write histories on the leader (config publish/remove over 24 keys, namespace add/update/remove; 35..165 writes in three batches), a follower that joins before the writes (optionally killed during the second batch) or only after them; after the quiescence rule (same leader everywhere, last_applied == leader's last log index) the follower's served data (GET of every key, user-created namespaces, raft members) must equal the leader's - again after the follower is killed and restarted. non-trivial = the follower really received an InstallSnapshot (its log shows create_snapshot); distinct = hash of the schedule".into(),
+        rule: "schedules on real processes: a leader with snapshot threshold 10/20/35, generated write histories on the leader (config publish/remove over 24 keys, namespace add/update/remove; 35..165 writes in three batches), a follower that joins before the writes (optionally killed during the second batch) or only after them; after the quiescence rule (same leader everywhere, last_applied == leader's last log index) the follower's served data (GET of every key, user-created namespaces, raft members) must equal the leader's - again after the follower is killed and restarted. A failing schedule is re-run in its Sequential variant (follower never compacts its own log, 150 ms after every leader write): only a failure that stays is reported, one that disappears is the recorded compaction-concurrent-with-apply finding. non-trivial = the follower really received an InstallSnapshot (its log shows create_snapshot); distinct = hash of the schedule".into(),
         assumptions: vec![
             "message schedules between the processes are sampled, not controlled".into(),
             "user rows are not written in this check (console login required); weak namespaces not compared".into(),
@@ -371,7 +411,14 @@ pub fn main(ctx: &Ctx) -> i32 {
     let seed = ctx.seed;
     if let Some(p) = &ctx.replay {
         let r = match read_replay::<Case>(p) {
-            Ok(c) => finish_replay(ctx, run_case(&c, &work, seed), p),
+            Ok(c) => {
+                let rep = if std::env::var("RNV_C08_VARIANT").map(|v| v == "sequential").unwrap_or(false) {
+                    run_case_variant(&c, &work, seed, Variant::Sequential)
+                } else {
+                    run_case(&c, &work, seed)
+                };
+                finish_replay(ctx, rep, p)
+            }
             Err(e) => {
                 eprintln!("cannot read replay: {}", e);
                 2
